@@ -86,8 +86,9 @@ def main(tier, replay):
         "voxel j, M_b = sum|P x|+|a|, PM_j the prior's sum of |terms|; D0 4*n*2^-24*D0_j with n = longest row + most bins per voxel + subsets "
         "+ 8; curvature 4*90*2^-24*c_j; filters 64*2^-24*(|taps| applied to |image|).  The model is re-synchronised to the implementation's "
         "floats after every sub-iteration.  Oracle on the implementation: iterates in [0, ub] after update_estimate, and after the filters "
-        "when these are bound preserving (smoothing kernel; iterates leaving the bounds after the sharpening kernel are counted, not judged: "
-        "OSSPS does not clamp after filtering, Lean: C08_in_bounds_fails_after_sharpening_filter); D0 >= 0, bitwise equal to "
+        "when these are bound preserving (smoothing kernel; after the sharpening kernel iterates do leave the bounds, OSSPS does not clamp "
+        "after filtering: known finding bounds:sharpening-filter-applied-after-clamp, Lean: C08_in_bounds_fails_after_sharpening_filter); "
+        "D0 >= 0, bitwise equal to "
         "-add_multiplication_with_approximate_Hessian_without_penalty(ones) and equal to sum_b P_bj (P1)_b/(n_b^2 y_b) over the bins of the "
         "objective function (fails with zero_seg0_end_planes: known finding denominator:includes-zeroed-seg0-end-planes); gradient equal "
         "to the definition sum_{b in S} P_bj (y_b/(Px+a)_b - 1/n_b) - prior, taken at the current image for the scheduled subset (randomised "
